@@ -4,6 +4,7 @@ EXTENDS Engine, Json
 Emit == (\E p \in Procs : nops'[p] # nops[p]) => PrintT(<<"TRACE", ToJson(hist')>>)
 SW_a == {<<"xr">>, <<"cdA">>, <<"xr", "cdA">>}
 SW_b == {<<"xr", "rev">>, <<"cdA">>, <<"cdA", "cdB">>}
-AllOps == {"Start", "Stop", "IsRunning", "GetWatches", "StartWatches", "StopWatches", "GC", "RemoveInformer", "ChangeRefs"}
+AllOps == {"Start", "Stop", "IsRunning", "GetWatches", "StartWatches", "StopWatches", "GC", "RemoveInformer", "ChangeRefs", "CachedRead"}
 CoreOps == {"Start", "Stop", "StartWatches", "GC", "RemoveInformer"}
+ReadOps == {"Start", "StartWatches", "RemoveInformer", "CachedRead"}
 =============================================================================
